@@ -49,6 +49,7 @@ PROPS = {
     "C05": {
         "lanes": [
             {"lane": "pack", "quick": 2500, "thorough": 60000},
+            {"lane": "pack-spelling", "quick": 60, "thorough": 1500},   # one Packer reused for two roots
         ],
         "trusted_base": [STDLIB, FSMODEL],
         "assumptions": ["open findings F13, F14 (links inside / nested dereferenced directories) and F37 (a link re-entering the source directory through its own name) are reported as KNOWN-FINDING; the 'Unpack accepts Pack's output' oracle is applied without allow-lists"],
